@@ -88,3 +88,20 @@ Theorem C03_json_one_line_per_document :
   forall (fmt_f64 : N -> bytes), (forall b, ~ In 10%N (fmt_f64 b)) ->
     forall vs : list jval, count_occ N.eq_dec (jwrite_docs fmt_f64 vs) 10%N = length vs.
 Proof. exact one_line_per_document. Qed.
+
+(* The same two statements for the concrete model of the float spelling
+   (theories/JsonFloatModel.v, JsonFloatProofs.v): no premise is left. *)
+From XtModel Require Import JsonFloatModel JsonFloatProofs.
+
+Theorem C03_json_output_recovers_documents_with_floats :
+  forall vs : list jval, Forall (writable ryu_ok) vs ->
+    json_reader (jwrite_docs json_f64 vs) = (map jevs vs, JDone) /\
+    json_slice (jwrite_docs json_f64 vs) = (map jevs vs, JDone).
+Proof.
+  intros vs H. split; [exact (json_reader_reads_docs json_f64 ryu_ok json_f64_reads json_f64_head vs H)
+                      |exact (json_slice_reads_docs json_f64 ryu_ok json_f64_reads json_f64_head vs H)].
+Qed.
+
+Theorem C03_json_one_line_per_document_with_floats :
+  forall vs : list jval, count_occ N.eq_dec (jwrite_docs json_f64 vs) 10%N = length vs.
+Proof. exact (one_line_per_document json_f64 json_f64_no_newline). Qed.
